@@ -111,7 +111,13 @@ class PieceLengthValueError(Exception):
 
         The `message` argument is a message to pass to Exception base class.
         """
-        self.message = f"Incorrect value for piece length: {str(message)}"
+        try:
+            text = str(message)
+        except ValueError:
+            # an integer too long to be printed
+            text = "integer of more than 4300 digits"
+            message = text
+        self.message = f"Incorrect value for piece length: {text}"
         super().__init__(message)
 
 
